@@ -253,7 +253,10 @@ template <class A, class B> void blockFn(Ctx &ctx, int ta, int tb, long aLo, lon
             const bool incExp = la >= 0 && lb >= 0 && la + lb <= maxA;
             ok = ok && inc.has_value() == incExp && (!incExp || (long long)*inc == la + lb);
             ok = ok && natOk<int8_t>(a, b, la, lb) && natOk<uint8_t>(a, b, la, lb) && natOk<int16_t>(a, b, la, lb) && natOk<uint16_t>(a, b, la, lb)
-                 && natOk<int32_t>(a, b, la, lb) && natOk<uint32_t>(a, b, la, lb) && natOk<int64_t>(a, b, la, lb) && natOk<uint64_t>(a, b, la, lb);
+                 && natOk<int32_t>(a, b, la, lb);
+            // 16x16-bit blocks stop at S=int32 (the wider S are enumerated with every 8x16 and 16x8 pair): 12 checks per point instead of 18
+            if (sizeof(A) == 1 || sizeof(B) == 1)
+                ok = ok && natOk<uint32_t>(a, b, la, lb) && natOk<int64_t>(a, b, la, lb) && natOk<uint64_t>(a, b, la, lb);
             fbits |= 1ULL << ((la < 0 ? 0 : la == 0 ? 1 : 2) * 3 + (lb < 0 ? 0 : lb == 0 ? 1 : 2) + (incExp ? 9 : 0) + (la < lb ? 18 : 0));
             if (!ok) {
                 ++st.mism;
@@ -286,7 +289,8 @@ void runBlock(Ctx &ctx, const std::string &w) {
     BlockTab[a * 4 + b](ctx, a, b, lo, hi, st);
     ctx.ubsanGate({"SquidMath.h"});
     ctx.count("exhaustive_points", st.points);
-    ctx.count("exhaustive_point_checks", st.points * 18); // Less + IncreaseSum + 8 x (NaturalSum + SetToNaturalSumOrMax)
+    // Less + IncreaseSum + (NaturalSum + SetToNaturalSumOrMax) x 8 result types (5 for 16x16-bit pairs)
+    ctx.count("exhaustive_point_checks", st.points * ((a >= 2 && b >= 2) ? 12 : 18));
     if (st.mism) ctx.count("exhaustive_mismatching_points", st.mism);
 }
 
